@@ -169,7 +169,10 @@ func caseRoot(f func(), done *int32) {
 }
 
 // Call runs f (any blocking library call) in its own goroutine and waits for it with the goroutine
-// census: it returns "deadlock" if f has not returned and every goroutine started since the call
+// census. EVERYTHING f depends on for progress must be started inside f: goroutines that exist
+// before the call belong to the baseline and are not looked at, so an f that waits for them would
+// be taken for a deadlock as soon as they are slow (this happened once: a report built before the
+// call, see DESIGN.md 8.3). it returns "deadlock" if f has not returned and every goroutine started since the call
 // is parked for ever. It holds the same one-case-at-a-time lock as Run.
 func Call(f func()) (verdict, detail string) {
 	mu.Lock()
